@@ -412,6 +412,85 @@ def _a7b_positive(tree: ast.AST, m) -> List[Tuple[str, str]]:
     return [(mu.qual.split(":")[1], w) for (st, attr, mu, w) in _a7b_core(target, units)]
 
 
+def guarded_caches(prog: Program):
+    """[(guard unit, cache attr, mutator unit, written source attr)] for the idiom
+
+        def m(self, ..):
+            if self.X is not None:      # already computed
+                return
+            ... computes self.X (here or in helper methods) from other attributes S ...
+
+    where another method of the class family writes an attribute of S and neither resets X
+    nor calls a method that does: the next call of m serves the value of the old state."""
+    out = []
+    seen_guard = 0
+    for ci in prog.classes.values():
+        fam = {c.qual: c for c in prog.mro(ci)}
+        methods = {}
+        for c in fam.values():
+            for n, mu in c.methods.items():
+                methods.setdefault(n, mu)
+        for mname, mu in ci.methods.items():
+            guard_attr = None
+            for st in mu.node.body[:4]:
+                if isinstance(st, ast.If) and not st.orelse and len(st.body) == 1 \
+                        and isinstance(st.body[0], ast.Return) \
+                        and (st.body[0].value is None or dotted(st.body[0].value) is not None):
+                    t = st.test
+                    if isinstance(t, ast.Compare) and len(t.ops) == 1 \
+                            and isinstance(t.ops[0], ast.IsNot) \
+                            and isinstance(t.comparators[0], ast.Constant) \
+                            and t.comparators[0].value is None \
+                            and (dotted(t.left) or "").startswith("self.") \
+                            and (dotted(t.left) or "").count(".") == 1:
+                        guard_attr = dotted(t.left)
+            if guard_attr is None:
+                continue
+            # producers: this method and the self-methods it calls (two levels)
+            producers = [mu]
+            frontier = [mu]
+            for _ in range(2):
+                nxt = []
+                for pu in frontier:
+                    for c in walk_local(pu.node):
+                        if isinstance(c, ast.Call) and isinstance(c.func, ast.Attribute) \
+                                and dotted(c.func.value) == "self" and c.func.attr in methods \
+                                and methods[c.func.attr] not in producers:
+                            producers.append(methods[c.func.attr])
+                            nxt.append(methods[c.func.attr])
+                frontier = nxt
+            derived = set()
+            for pu in producers:
+                derived |= _self_writes(pu.node)
+            if guard_attr not in derived:
+                continue                     # not a cache of something computed here
+            seen_guard += 1
+            reads = set()
+            for pu in producers:
+                for x in walk_local(pu.node):
+                    if isinstance(x, ast.Attribute) and isinstance(x.ctx, ast.Load):
+                        d = dotted(x) or ""
+                        if d.startswith("self.") and d.count(".") >= 1:
+                            reads.add(".".join(d.split(".")[:2]))
+            sources = reads - derived
+            resetters = {n for n, m2 in methods.items() if guard_attr in _self_writes(m2.node)
+                         and m2 not in producers}
+            all_methods = [m2 for c in list(fam.values()) + prog.subclasses(ci)
+                           for m2 in c.methods.values()]
+            for m2 in all_methods:
+                if m2 in producers or m2.name in ("__init__", "__new__") or m2.name in resetters:
+                    continue
+                hit = sorted(_self_writes(m2.node) & sources)
+                if not hit:
+                    continue
+                calls_reset = any(isinstance(c, ast.Call) and isinstance(c.func, ast.Attribute)
+                                  and dotted(c.func.value) == "self" and c.func.attr in resetters
+                                  for c in walk_local(m2.node))
+                if not calls_reset:
+                    out.append((mu, guard_attr, m2, hit[0]))
+    return out, seen_guard
+
+
 def a7(prog: Program, chk: Check) -> None:
     chk.rule("A7", "a hand-written memo (look-up in a dict attribute, recompute-and-store on a "
              "miss, value returned) must key or validate the entry by every parameter the stored "
@@ -458,6 +537,15 @@ def a7(prog: Program, chk: Check) -> None:
     chk.add("A7b", m, "positive example: memo of prepared items, put() rewrites the raw items "
             "without dropping it", True, "reported as expected (rule is alive)",
             function="Store.prepared")
+    gc, n_guards = guarded_caches(prog)
+    chk.extra["a7b_guarded_caches"] = n_guards
+    for (gu, attr, mu, written) in gc:
+        chk.saw(gu)
+        chk.add("A7b", gu, f"cache {attr} (guarded early return) vs "
+                f"{mu.qual.split(':')[1]} writing {written}", False,
+                f"{gu.qual.split(':')[1]} returns early when {attr} is set, but "
+                f"{mu.qual.split(':')[1]} changes {written}, which it was computed from, without "
+                f"resetting it: the next call serves the value of the old state", gu.node)
     for u in prog.units.values():
         if isinstance(u.node, ast.Lambda) or u.cls is None:
             continue
@@ -1241,6 +1329,16 @@ def a8(prog: Program, chk: Check) -> None:
     chk.add("A8", bi, f"coupling operator converted by {norm(v) if v is not None else '?'}", ok,
             "" if ok else "the coupling operator is not copied before it is frozen (setflags) "
                           "and stored")
+    sc = setter_copies(prog)
+    if len(sc) < 7:
+        raise AnalysisError(f"A8: only {len(sc)} array stores found in the setters of "
+                            f"SimpleProcessTensor / Control / ChainControl (floor 7)")
+    for (mu, st, v, ok) in sc:
+        chk.saw(mu)
+        chk.add("A8", mu, f"{norm(st)[:70]}", ok,
+                "an independent copy / a new array is stored" if ok else
+                "the object keeps the caller's buffer: writing into that array later changes "
+                "what was set (the sibling classes store np.array(..) copies)", st)
     ch = prog.unit("system:_check_hamiltonian")
     v = conversion_of(ch, "hamiltonian")
     ok = v is not None and isinstance(v, ast.Call) and \
@@ -1248,6 +1346,97 @@ def a8(prog: Program, chk: Check) -> None:
     chk.add("A8", ch, f"Hamiltonian converted by {norm(v) if v is not None else '?'}", ok,
             "" if ok else "the Hamiltonian is frozen / stored without a copy: setflags would make "
                           "the CALLER's array read-only")
+
+
+ALIASING_CALLS = {"numpy.asarray", "numpy.asanyarray", "numpy.ascontiguousarray",
+                  "numpy.asfortranarray", "numpy.atleast_2d", "numpy.squeeze", "numpy.reshape",
+                  "numpy.ravel", "numpy.transpose"}
+STORE_TABLE = [("process_tensor:SimpleProcessTensor", "set_"),
+               ("control:Control", "add_single"),
+               ("control:ChainControl", "add_single_site_control")]
+
+
+def _aliases_param(mod, du: DefUse, nid: int, v: ast.AST, params, depth: int = 0) -> Optional[str]:
+    """Name of the parameter whose buffer `v` (evaluated at nid) may share, else None."""
+    if depth > 4:
+        return None
+    if isinstance(v, ast.Name):
+        ds = du.reaching(nid, v.id)
+        for d in ds:
+            if d.sel == (("param",),) and v.id in params:
+                return v.id
+            if d.value is not None and not d.sel and d.node != nid:
+                r = _aliases_param(mod, du, d.node, d.value, params, depth + 1)
+                if r:
+                    return r
+        return None
+    if isinstance(v, ast.Attribute) and v.attr in ("T", "real", "imag"):
+        return _aliases_param(mod, du, nid, v.value, params, depth + 1)
+    if isinstance(v, ast.Subscript):
+        return _aliases_param(mod, du, nid, v.value, params, depth + 1)
+    if isinstance(v, ast.Call):
+        r = (_resolve(mod, v) or "").replace("np.", "numpy.")
+        no_copy = any(k.arg == "copy" and isinstance(k.value, ast.Constant) and k.value.value is False
+                      for k in v.keywords)
+        if (r in ALIASING_CALLS or (r == "numpy.array" and no_copy)) and v.args:
+            return _aliases_param(mod, du, nid, v.args[0], params, depth + 1)
+        if isinstance(v.func, ast.Attribute) and v.func.attr in ("reshape", "view", "transpose",
+                                                                 "squeeze", "ravel") :
+            return _aliases_param(mod, du, nid, v.func.value, params, depth + 1)
+    if isinstance(v, (ast.Dict,)):
+        for x in v.values:
+            r = _aliases_param(mod, du, nid, x, params, depth + 1)
+            if r:
+                return r
+    return None
+
+
+def setter_copies(prog: Program, table=None):
+    """[(unit, store statement, stored expression, ok)]: the objects in the table keep their own
+    copies of the arrays they are given - no store into `self.<attr>` (assignment, subscript
+    store, append) keeps the buffer of an array argument (bare name, np.asarray, a view)."""
+    out = []
+    scalars = {"step", "site", "time", "post", "name"}
+    for cq, prefix in (table or STORE_TABLE):
+        ci = prog.cls(cq)
+        for mname, mu in sorted(ci.methods.items()):
+            if not mname.startswith(prefix):
+                continue
+            params = [p for p in mu.params if p != "self" and p not in scalars]
+            du = DefUse(mu, CFG(mu.node, exc_edges=False))
+            for st in walk_local(mu.node):
+                stores = []
+                if isinstance(st, ast.Assign):
+                    for t in st.targets:
+                        base = t
+                        while isinstance(base, ast.Subscript):
+                            base = base.value
+                        if (dotted(base) or "").startswith("self."):
+                            stores.append((t, st.value))
+                elif isinstance(st, ast.Expr) and isinstance(st.value, ast.Call) \
+                        and isinstance(st.value.func, ast.Attribute) \
+                        and st.value.func.attr in ("append", "insert", "extend") \
+                        and (dotted(st.value.func.value) or "").startswith("self.") \
+                        and st.value.args:
+                    stores.append((st.value.func.value, st.value.args[-1]))
+                for (t, v) in stores:
+                    if isinstance(v, ast.Constant):
+                        continue
+                    nid = du.node_of(v)
+                    if nid is None:
+                        continue
+                    mentions = any(isinstance(y, ast.Name) and (
+                        y.id in params or any(dd.value is not None for dd in du.reaching(nid, y.id)))
+                        for y in ast.walk(v))
+                    if not mentions:
+                        continue
+                    al = _aliases_param(mu.module, du, nid, v, params)
+                    # only stores of (something derived from) an array argument are instances
+                    from oqv.dataflow import depends_on
+                    if al is None and not depends_on(du, v, nid, set(params)):
+                        continue
+                    out.append((mu, st, v, al is None))
+    return out
 
 
 GLOBAL_SETTERS = {"numpy.seterr", "numpy.random.seed", "numpy.set_printoptions",
@@ -1308,11 +1497,11 @@ def run(prog: Program, chk: Check) -> None:
         "functools.lru_cache on a method keys on self (identity/hash) and the arguments only",
         "copy.copy is shallow: attribute values (incl. closures) are shared",
     ]
-    a1(prog, chk)
-    a7(prog, chk)
-    a2_a3(prog, chk)
-    a4(prog, chk)
-    a5(prog, chk)
-    a6(prog, chk)
-    a6b(prog, chk)
-    a8(prog, chk)
+    chk.call(a1, prog, chk)
+    chk.call(a7, prog, chk)
+    chk.call(a2_a3, prog, chk)
+    chk.call(a4, prog, chk)
+    chk.call(a5, prog, chk)
+    chk.call(a6, prog, chk)
+    chk.call(a6b, prog, chk)
+    chk.call(a8, prog, chk)
